@@ -493,7 +493,9 @@ def partial_clauses(prop):
             "finding K1) and proved only under the shape guard cousin_guard of Spec/PC19.v (C19_cousins_partial): "
             "every node has at most one child with children, or exactly two children [a; b] such that the walk from a "
             "along right-most children-with-children reaches a's deepest level and the walk from b along left-most "
-            "children-with-children reaches b's deepest level"]
+            "children-with-children reaches b's deepest level; C19_cousins_partial2 additionally allows nodes with any "
+            "number of non-leaf children all of whose grandchildren are leaves; C19_cousins_failure_shape is the "
+            "contrapositive (every cousin failure happens on a tree outside that guard)"]
 
 
 def trusted_base(prop):
